@@ -575,7 +575,7 @@ func main() {
 	if profile == "" {
 		profile = "fifo"
 	}
-	n := 60
+	n := 150
 	if lib.Tier() == "thorough" {
 		n = 1500
 	}
